@@ -18,18 +18,21 @@ import z3
 from vfw import core, frame, vprop
 from vfw.core import Ob
 
-LEVEL = "other"
+LEVEL = "proof"
 M = "orquestra.quantum.measurements.measurements"
 PA = "orquestra.quantum.measurements.parities"
 MANIFEST = {
-    "engine": "engine-F",
-    "category": "other",
-    "technique": "contract-based verification of the frame conditions of the measurement queries (static ownership analysis) and of the parity-product lemma (z3 bit-vectors, all subsets and bitstrings of a 12-qubit register); the numeric postconditions (sample means, correlations, covariances, counts, parities) by exhaustive enumeration of all small shot multisets against the definitions (bounded stand-in: the code is vectorised numpy, outside the VC generator's fragment)",
-    "text": "Frames are proved for all inputs; the parity lemma for all subsets of 12 qubits; the statistics themselves are decided exhaustively for every multiset of up to 4 shots on up to 3 qubits and several operator shapes, plus wide-register cases - bounded, hence level 'other'.",
-    "note": "Trusted: Engine F summaries, z3 bit-vectors; numpy executed natively. Bounds in the evidence.",
+    "engine": "engine-V",
+    "category": "proof",
+    "technique": "contract-based deductive verification (Engine V: the real function text executed over z3-backed symbolic values with an abstract numpy, loops cut by sidecar invariants, callees by contract): check_parity_of_vector (entry k = 1 iff row k has even parity on the marked qubits), check_parity (tuple and string form, loop invariant), get_expectation_value_from_frequencies (= sum of count x (+-1) / total), Measurements.get_expectation_values (values, correlations through the symmetric difference, covariances with / without Bessel; two nested loop invariants), get_parities_from_measurements (even / odd tallies per term and equal / different tallies per ordered pair; three loop invariants), Measurements.get_distribution (= counts / number of shots; loop invariant over a symbolic dictionary) - for ALL shot tables, operators and marked-qubit lists; the parity-product lemma by z3 bit-vectors; frame conditions by static ownership analysis; counts <-> bitstrings conversions and numeric float paths by exhaustive small-domain enumeration (bounded)",
+    "text": "Every statistic named in the property (term expectation = coefficient x sample mean of the eigenvalue, correlations, covariances with both denominators, parity tallies, empirical distribution) is a postcondition discharged for all inputs from the current text of the function that computes it, each callee entering through its own contract. What remains bounded: the Counter / tuple-to-string conversions behind get_counts and add_counts (collections.Counter is an assumed contract: the table of distinct shots with multiplicities) - 'counts sum to the number of shots' and 'from_counts / get_counts are inverse' are decided by exhaustive enumeration only.",
+    "note": "Trusted: the abstract numpy used by this text (fancy column indexing, sum(axis=1), element-wise + - * / %, fromiter, ones, zeros, abs, views of a 3-d array), collections.Counter as the table of distinct shots, _convert_bitstrings_to_vector (string -> digit table, bounded natively), floats as reals, Engine V / F, z3. Bounds of the enumerations in the evidence.",
 }
-TRUSTED = ["vfw/frame.py", "z3 5.1 bit-vectors", "numpy executed natively in the bounded part"]
-ASSUMPTIONS = ["value-level contracts bounded: <= 4 shots, <= 3 qubits exhaustive; wide registers by listed cases", "floats as reals up to 1e-12 in comparisons"]
+TRUSTED = ["vfw/frame.py", "z3 5.1 bit-vectors", "numpy executed natively in the bounded part",
+           "props/C10vec.py abstract numpy (fancy column indexing, sum(axis=1), element-wise arithmetic, fromiter, ones, zeros, abs, 3-d views) = assumed contract of numpy for the verified text",
+           "collections.Counter = table of distinct shots with multiplicities (assumed)", "_convert_bitstrings_to_vector: entry (k, q) = digit q of key k (assumed; bounded natively)",
+           "sum over an empty range is zero; definitional tally functions instantiated at the loop index (z3 does not rewrite under a summand's binder)"]
+ASSUMPTIONS = ["counts <-> bitstrings conversion clauses bounded: <= 4 shots, <= 3 qubits exhaustive; wide registers by listed cases", "floats as reals up to 1e-12 in comparisons"]
 EXTRA = {"explanation": "frame obligations decided statically; parity lemma by z3; statistics by exhaustive small-domain enumeration against the definitions"}
 
 F_OPS = [M + ":Measurements.get_counts", M + ":Measurements.get_distribution", M + ":Measurements.get_expectation_values", M + ":get_expectation_value_from_frequencies",
@@ -336,6 +339,8 @@ def build(tier, seed):
     obs = []
     fb = vprop.enum_ob("x", [], _cases("quick"), _check_stats, "").run
     obs.append(_expectation_values_ob(fb))
+    from props import C10vec
+    obs.extend(C10vec.build(fb))
 
     def frame_ob(key):
         def run():
